@@ -45,3 +45,15 @@ mod broken {
     pub fn contract() -> Box<dyn Contract<Empty>> { Box::new(ContractWrapper::new(execute, instantiate, query)) }
 }
 pub fn broken_vault_contract() -> Box<dyn Contract<Empty>> { broken::contract() }
+
+/// A code whose `migrate` accepts anything: the target of direct wasm-level migration attempts (C16: the children of a
+/// factory are migrated through their factory only, so such an attempt by an account must be refused by the chain).
+mod anymigrate {
+    use super::*;
+    fn instantiate(_d: DepsMut, _e: Env, _i: MessageInfo, _m: Empty) -> StdResult<Response> { Ok(Response::new()) }
+    fn execute(_d: DepsMut, _e: Env, _i: MessageInfo, _m: Empty) -> StdResult<Response> { Ok(Response::new()) }
+    fn query(_d: Deps, _e: Env, _m: Empty) -> StdResult<Binary> { to_json_binary(&0u8) }
+    fn migrate(_d: DepsMut, _e: Env, _m: Empty) -> StdResult<Response> { Ok(Response::new()) }
+    pub fn contract() -> Box<dyn Contract<Empty>> { Box::new(ContractWrapper::new(execute, instantiate, query).with_migrate(migrate)) }
+}
+pub fn any_migrate_contract() -> Box<dyn Contract<Empty>> { anymigrate::contract() }
